@@ -104,8 +104,9 @@ def grid3d(b, rng, nx, ny, nz, kind, origin=(0, 0, 0)):
                     for t in KUHN:
                         b.cell('tet', [c[q] for q in t])
                 elif kk == 'prism':
-                    b.cell('prism', [c[0], c[1], c[2], c[4], c[5], c[6]])
-                    b.cell('prism', [c[0], c[2], c[3], c[4], c[6], c[7]])
+                    # femio/FrontISTR orientation: (p1-p0)x(p2-p0) points away from 3-5
+                    b.cell('prism', [c[0], c[2], c[1], c[4], c[6], c[5]])
+                    b.cell('prism', [c[0], c[3], c[2], c[4], c[7], c[6]])
                 elif kk == 'pyr':
                     ctr = b.node((ox + 2 * i + 1, oy + 2 * j + 1, oz + 2 * k + 1))
                     # six pyramids, base seen from the centre is counter-clockwise?
